@@ -154,9 +154,39 @@ MultiGrouped == C("multigrouped", <<Grouped(Two(R("r1", SG, 0, "a", "multi", FAL
 MultiGroupedSc == C("multigroupedsc", <<Grouped(Two(R("r1", SC, 0, "a", "multierr", FALSE, <<>>), 1))>>)
 CfgForms == {OutKG, OutKGSing, OutKGTr, MultiNamed, MultiNamedSc, MultiGrouped, MultiGroupedSc}
 
+\* more shapes suggested by independent seeded changes: a transient with two aliases; a singleton with an optional
+\* singleton dependency that has dependencies itself; a singleton consuming a group with a transient member that needs
+\* a singleton; groups whose members have different lifetimes; aliases combined with groups of different sizes
+Alias2Transient == C("alias2tr", <<As(R("r1", TR, 0, "a", "ctorerr", FALSE, <<>>), <<"I0", "I1">>),
+                                   R("r2", SC, 1, "a", "ctorerr", FALSE, <<>>)>>)
+OptionalSing == C("optionalsing", <<R("r1", SG, 0, "a", "ctorerr", TRUE, <<PO("S1")>>),
+                                    R("r2", SG, 1, "a", "ctorerr", FALSE, <<P("S2")>>),
+                                    R("r3", SG, 2, "a", "ctorerr", FALSE, <<>>)>>)
+GroupTransDeps == C("grouptransdeps", <<R("r1", SG, 0, "a", "ctorerr", TRUE, <<PG("S1")>>),
+                                        Grouped(R("r2", TR, 1, "a", "ctorerr", FALSE, <<P("S2")>>)),
+                                        R("r3", SG, 2, "a", "ctorerr", FALSE, <<P("S3")>>),
+                                        R("r4", SG, 3, "a", "ctorerr", FALSE, <<>>)>>)
+GroupMixedOK == C("groupmixedok", <<Grouped(R("r1", SC, 1, "a", "ctorerr", FALSE, <<>>)),
+                                    Grouped(R("r2", TR, 1, "b", "ctorerr", FALSE, <<>>)),
+                                    R("r3", SC, 0, "a", "ctorerr", TRUE, <<PG("S1")>>)>>)
+GroupMixedCaptive == C("groupmixedcaptive", <<Grouped(R("r1", SC, 1, "a", "ctorerr", FALSE, <<>>)),
+                                              Grouped(R("r2", TR, 1, "b", "ctorerr", FALSE, <<>>)),
+                                              R("r3", SG, 0, "a", "ctorerr", TRUE, <<PG("S1")>>)>>)
+GroupMixedCaptive2 == C("groupmixedcaptive2", <<Grouped(R("r2", TR, 1, "b", "ctorerr", FALSE, <<>>)),
+                                                Grouped(R("r1", SC, 1, "a", "ctorerr", FALSE, <<>>)),
+                                                R("r3", TR, 0, "a", "ctorerr", TRUE, <<PG("S1")>>)>>)
+AliasGroupAsym == C("aliasgroupasym", <<Grouped(As(R("r1", SG, 1, "a", "ctorerr", FALSE, <<>>), <<"I0">>)),
+                                        Grouped(As(R("r2", SG, 0, "a", "ctorerr", FALSE, <<>>), <<"I0", "I1">>)),
+                                        Grouped(As(R("r3", SC, 2, "a", "ctorerr", FALSE, <<>>), <<"I1", "I0">>))>>)
+CycleOptional == C("cycleoptional", <<R("r1", SC, 0, "a", "ctorerr", TRUE, <<PO("S1")>>),
+                                      R("r2", SC, 1, "a", "ctorerr", FALSE, <<P("S0")>>)>>)
+MissingKeyed == C("missingkeyed", <<R("r1", SG, 1, "a", "ctorerr", FALSE, <<>>),
+                                    R("r2", SC, 0, "a", "ctorerr", TRUE, <<P("S1"), PK("S1")>>)>>)
+CfgMore == {Alias2Transient, OptionalSing, GroupTransDeps, GroupMixedOK, AliasGroupAsym}
+
 Plain == {Basic, Chain, Keyed, Group, GroupScoped, GroupDeps, Multi, MultiTr, OutKN, OutKNSing, Alias1, Alias2,
-          Alias2Scoped, Diamond2, Optional, Inits, InitSing, Builtin, InstVal} \cup CfgForms
-Defective == {Cycle2, CycleGroup, Captive, CaptiveGroup, MissingDep}
+          Alias2Scoped, Diamond2, Optional, Inits, InitSing, Builtin, InstVal} \cup CfgForms \cup CfgMore
+Defective == {Cycle2, CycleGroup, Captive, CaptiveGroup, MissingDep, GroupMixedCaptive, GroupMixedCaptive2, CycleOptional, MissingKeyed}
 
 Hows == {"err", "panic"}
 \* a scripted error needs a constructor shape that can return one
